@@ -221,6 +221,7 @@ def run(ctx):
     # the tokeniser's per-word stages visit every word (a stale stem makes a word unmatchable); caches are coherent
     from . import r_token as RK
     RK.per_word_stages_unconditional(ctx, "R13.g")
+    RK.text_methods_use_chars(ctx, "R13.g")
     RS.memo_coherence(ctx, "R13.h", skip_fill=lambda fb_: fb_.id in _empty_query_only(ctx))
     from . import C10 as RC10
     RC10.hidden_state_inventory(ctx, "R13.h", RS.reset_before_read(ctx, None))
